@@ -9,8 +9,9 @@ THEOREMS = ["C05_same_type_is_mutual_assignability", "C05_same_type_answer", "C0
             "C05_difference_is_set_difference", "C05_assignable_implies_inclusion", "C05_basic_types_assignability_is_inclusion",
             "C05_list_types_assignable_implies_inclusion", "C05_list_only_types_assignable_implies_inclusion",
             "C05_list_only_types_not_assignable_has_a_separating_value", "C05_list_only_types_assignability_is_inclusion", "C05_lists_nonvacuous",
+            "C05_flat_object_clause_empty_iff_covered", "C05_flat_object_conjunction_empty_iff_covered", "C05_flat_objects_nonvacuous",
             "C05_nonvacuous"]
-IMPORTS = "From Beff Require Import Model.Cases Model.ListEmpty."
+IMPORTS = "From Beff Require Import Model.Cases Model.ListEmpty. From Beff Require Import Model.MappingEmpty."
 QUERIES = ["a_sub_b", "b_sub_a", "same", "a_empty", "b_empty"]
 STRUCT = ("Mapping", "List", "Map", "Set")
 
@@ -32,6 +33,33 @@ def refs_allof(t, env):
                                        for m in n[1] for nd in semref.nodes(m)): return True
             if n[0] == "Ref" and n[1] not in seen and n[1] in envd:
                 seen.add(n[1]); todo.append(envd[n[1]])
+    return False
+
+
+def cycle_with_alternative(ts, env):
+    """a named type reachable from ts lies on a reference cycle and is referred to from inside a union: the shape on which the
+    emptiness memo keeps an answer that was computed while an enclosing type was only assumed empty"""
+    envd = dict(env)
+    def refs(x): return {n[1] for n in semref.nodes(x) if n[0] == "Ref" and n[1] in envd}
+    reach = {}
+    def closure(n):
+        if n not in reach:
+            reach[n] = set()
+            todo = list(refs(envd[n]))
+            while todo:
+                m = todo.pop()
+                if m not in reach[n]:
+                    reach[n].add(m); todo += list(refs(envd[m]))
+        return reach[n]
+    start = set()
+    for t in ts: start |= refs(t)
+    names = set(start)
+    for n in list(start): names |= closure(n)
+    cyclic = {n for n in names if n in closure(n)}
+    if not cyclic: return False
+    for n in names:
+        for nd in semref.nodes(envd[n]):
+            if nd[0] == "AnyOf" and any(m[0] == "Ref" and m[1] in cyclic for x in nd[1] for m in semref.nodes(x)): return True
     return False
 
 
@@ -75,7 +103,7 @@ def basic_type(g, depth=2):
 
 
 def check(run):
-    ok = run.prove("Props.C05", THEOREMS, ["Props/C05.vo"])
+    ok = run.prove("Props.C05", THEOREMS, ["Props/C05.vo", "Model/MappingEmpty.vo"])
     common.ensure_harness()
     quick = run.tier == "quick"
     g = typegen.TypeGen(run.seed + 500)
@@ -139,6 +167,10 @@ def check(run):
                 return
             if inter and cls in listed:
                 in_known[cls] += 1
+                return
+            if "memo_keeps_answer_computed_under_assumption" in listed and kind != "decision-depends-on-conversion-or-query-order" \
+                    and cycle_with_alternative([a, b], env):
+                in_known["memo_keeps_answer_computed_under_assumption"] += 1
                 return
             if "union_members_overlap_as_open_patterns" in listed:
                 if overlap is None: overlap = union_members_overlap(sem0, a, env) or union_members_overlap(sem0, b, env)
@@ -218,6 +250,40 @@ def check(run):
             env, a, b, how = cases[i]
             ldis.append(("list emptiness model vs the engine", {"named": env, "a": a, "b": b, "pair": how, "impl(a<=b,b<=a,a empty)": want, "model": got}))
     disagree += ldis
+    # the model of object emptiness (Model/MappingEmpty.v: bdd_to_dnf, intersect_mapping, check_mapping_empty) together with the list model,
+    # on the pairs whose structural components are objects and lists, with the engine's own atom tables; atoms with an index signature
+    # and recursive tables make the model throw / run out of fuel and are skipped
+    mexprs, mmeta = [], []
+    def no_map_set(sem):
+        return all(p[0] not in ("Map", "Set") for p in sem["data"])
+    for i, (env, a, b, how) in enumerate(cases):
+        r0 = res[2 * i]
+        if "ok" not in r0 or "err" in r0["ok"] or "mappings" not in r0["ok"]: continue
+        o0 = r0["ok"]
+        sa, sb, lists, mappings = o0["sem_a"], o0["sem_b"], o0["lists"], o0["mappings"]
+        if any(d is None for _, d in lists) or any(d is None for _, d in mappings): continue
+        if not any(p[0] == "Mapping" for p in sa["data"] + sb["data"]): continue
+        if any(d["indexed"] for _, d in mappings): continue
+        inner = [t for _, d in lists for t in d["prefix"] + [d["items"]]] + [t for _, d in mappings for _, t in d["fields"]]
+        if not (no_map_set(sa) and no_map_set(sb) and all(no_map_set(t) for t in inner)): continue
+        if not all(isinstance(o0[q], bool) for q in ("a_sub_b", "b_sub_a", "a_empty")): continue
+        ltbl = "[" + "; ".join("(%d%%N, mkLatom %s %s)" % (k, coq_list(bdds.sem_coq(t) for t in d["prefix"]), bdds.sem_coq(d["items"]))
+                               for k, d in lists) + "]"
+        mtbl = "[" + "; ".join("(%d%%N, mkMatom %s false)" % (k, coq_list("(%s, %s)" % (coq_str(f), bdds.sem_coq(t)) for f, t in d["fields"]))
+                               for k, d in mappings) + "]"
+        A, B = bdds.sem_coq(sa), bdds.sem_coq(sb)
+        mexprs.append('let lt := %s in let mt := %s in show_res_bool (sem_is_subtype_s lt mt no_struct 10 %s %s) +++ '
+                      'show_res_bool (sem_is_subtype_s lt mt no_struct 10 %s %s) +++ show_res_bool (sem_is_empty_s lt mt no_struct 10 %s)'
+                      % (ltbl, mtbl, A, B, B, A, A))
+        mmeta.append((i, "".join("t" if o0[q] else "f" for q in ("a_sub_b", "b_sub_a", "a_empty"))))
+    mdis, mskipped = [], 0
+    for (i, want), got in zip(mmeta, common.run_coq_cases(IMPORTS, mexprs, tag="C05maps", shard=40)):
+        if "!" in got:
+            mskipped += 1
+        elif got != want:
+            env, a, b, how = cases[i]
+            mdis.append(("object emptiness model vs the engine", {"named": env, "a": a, "b": b, "pair": how, "impl(a<=b,b<=a,a empty)": want, "model": got}))
+    disagree += mdis
     cq = common.run_coq_cases(IMPORTS, exprs, tag="C05")
     for k, (i, sub, same) in enumerate(emeta):
         tf = lambda x: "t" if x else "f"
@@ -234,12 +300,17 @@ def check(run):
                    "left type over a universe derived from both types (a value outside the right type refutes 'assignable'; an exhaustive "
                    "enumeration without such a value refutes 'not assignable'); non-trivial = min(#assignable, #not assignable) among judged")
     cov["correspondence"]["is_subtype / is_same_type of Model/Subtype.v vs the engine, on semtypes without structural components"] = {
-        "cases": len(emeta), "disagreements": len(disagree) - len(ldis), "distribution": {"pairs": dict(hist)}}
+        "cases": len(emeta), "disagreements": len(disagree) - len(ldis) - len(mdis), "distribution": {"pairs": dict(hist)}}
     cov["correspondence"]["list_is_empty of Model/ListEmpty.v (bdd_every_result, list_formula_is_empty, list_inhabited) vs the engine, with "
                           "the engine's own list atoms, on pairs whose structural components are lists only"] = {
         "cases": 3 * (len(lmeta) - lskipped), "disagreements": len(ldis),
         "distribution": {"pairs": len(lmeta), "pairs skipped (recursive list types: the model runs out of fuel)": lskipped,
                          "pair kinds": dict(collections.Counter(cases[i][3].split(":")[0] for i, _ in lmeta))}}
+    cov["correspondence"]["struct_is_empty of Model/MappingEmpty.v (bdd_to_dnf, intersect_mapping, check_mapping_empty; with the list model) vs the "
+                          "engine, with the engine's own object and list atoms, on pairs with object components and no index signature"] = {
+        "cases": 3 * (len(mmeta) - mskipped), "disagreements": len(mdis),
+        "distribution": {"pairs": len(mmeta), "pairs skipped (recursive types: the model runs out of fuel)": mskipped,
+                         "pair kinds": dict(collections.Counter(cases[i][3].split(":")[0] for i, _ in mmeta))}}
     cov["spec_checks"]["decisions vs inclusion of value sets"] = {
         "pairs": len(cases), "directions_judged": agree[True] + agree[False], "assignable": agree[True], "not_assignable": agree[False],
         "unjudged (bounded enumeration not exhaustive, or conversion error)": unjudged,
